@@ -88,7 +88,7 @@ FirstBad == IF ~InvokeGoverned THEN "InvokeGoverned" ELSE IF ~InvokeCauseOk THEN
 TStep == TEdit \/ TDelete \/ TFin \/ TDeliver \/ TBegin \/ TInv \/ TMerge \/ TJson \/ TEnd \/ TKill \/ TStop \/ TDown
          \/ TList \/ TQuiet \/ Silent \/ Advance
 \* which known family excuses a final state that is not converged (reported as KNOWN-FINDING by the runner)
-Excuse == IF ~up \/ pc \in {"sleep", "cwait"} THEN "none"
+Excuse == IF ~up \/ stopping \/ pc \in {"sleep", "cwait"} THEN "none"
           ELSE IF Converged THEN (IF Family_F8 THEN "F8" ELSE "none")
           ELSE IF Family_F20 THEN "F20" ELSE IF Family_F22 THEN "F22" ELSE IF Family_F21 THEN "F21"
           ELSE IF Family_F31 THEN "F31" ELSE "unconverged"
